@@ -349,16 +349,13 @@ class NegativeConditionsRemover(engines.engine.Engine, CompilerMixin):
                 fluent_remover.remove_negative_fluents(tc)
             )
 
+        # the goals of the oversubscription metrics are rewritten here, before fluent_mapping is read;
+        # the metrics are added below, once new_to_old (needed by the action costs) is filled
+        new_quality_metrics: List["up.model.metrics.PlanQualityMetric"] = []
         for qm in problem.quality_metrics:
-            if qm.is_minimize_action_costs():
-                new_problem.add_quality_metric(
-                    updated_minimize_action_costs(
-                        qm, new_to_old, new_problem.environment
-                    )
-                )
-            elif qm.is_oversubscription():
+            if qm.is_oversubscription():
                 assert isinstance(qm, Oversubscription)
-                new_problem.add_quality_metric(
+                new_quality_metrics.append(
                     Oversubscription(
                         {
                             fluent_remover.remove_negative_fluents(g): v
@@ -369,7 +366,7 @@ class NegativeConditionsRemover(engines.engine.Engine, CompilerMixin):
                 )
             elif qm.is_temporal_oversubscription():
                 assert isinstance(qm, TemporalOversubscription)
-                new_problem.add_quality_metric(
+                new_quality_metrics.append(
                     TemporalOversubscription(
                         {
                             (t, fluent_remover.remove_negative_fluents(g)): v
@@ -379,7 +376,7 @@ class NegativeConditionsRemover(engines.engine.Engine, CompilerMixin):
                     )
                 )
             else:
-                new_problem.add_quality_metric(qm)
+                new_quality_metrics.append(qm)
 
         # fluent_mapping is the map between a fluent and it's negation, when the
         # negation is None it means the fluent is never found in a negation into
@@ -479,6 +476,16 @@ class NegativeConditionsRemover(engines.engine.Engine, CompilerMixin):
                             e.forall,
                         ),
                     )
+
+        for qm in new_quality_metrics:
+            if qm.is_minimize_action_costs():
+                new_problem.add_quality_metric(
+                    updated_minimize_action_costs(
+                        qm, new_to_old, new_problem.environment
+                    )
+                )
+            else:
+                new_problem.add_quality_metric(qm)
 
         return CompilerResult(
             new_problem, partial(replace_action, map=new_to_old), self.name
